@@ -12,13 +12,13 @@ Init == st = InitSt /\ deliv = <<>> /\ hist = <<>>
 
 Do(op) == \E r \in Steps(st, op, Devs) :
             /\ st' = r.post
-            /\ deliv' = IF op.k \in {"exec", "open"} \/ (op.k = "execfail" /\ r.post # st) THEN <<>>
+            /\ deliv' = IF op.k \in {"exec", "dml", "open"} \/ (op.k = "execfail" /\ r.post # st) THEN <<>>
                         ELSE IF op.k \in {"one", "many", "manydef", "all"} THEN deliv \o r.obs.rows ELSE deliv
             /\ hist' = Append(hist, op)
 
 \* one named action per public call, so that -coverage shows which were exercised
 Open        == \E op \in {o \in Ops(st) : o.k = "open"} : Do(op)
-Execute     == \E op \in {o \in Ops(st) : o.k = "exec"} : Do(op)
+Execute     == \E op \in {o \in Ops(st) : o.k \in {"exec", "dml"}} : Do(op)
 ExecuteFail == \E op \in {o \in Ops(st) : o.k = "execfail"} : Do(op)
 FetchOne    == \E op \in {o \in Ops(st) : o.k = "one"} : Do(op)
 FetchMany   == \E op \in {o \in Ops(st) : o.k = "many"} : Do(op)
@@ -51,9 +51,9 @@ NoResult == (st.cur # "none" /\ ~st.open) =>
                  \A r \in Steps(st, op, Devs) : r.obs.res = "noresult" /\ r.post = st
 \* a new execute replaces the old result completely
 Replace == \A op \in {o \in Ops(st) : o.k = "exec"} : \A r \in Steps(st, op, Devs) :
-              r.post.idx = 0 /\ r.post.n = op.n /\ r.post.sh = op.sh /\ r.post.open /\ r.post.asz = st.asz
+              r.post.idx = 0 /\ r.post.n = op.n /\ r.post.sh = op.sh /\ r.post.open /\ (op.via = "x" => r.post.asz = st.asz)
 \* the fetch index never goes backwards between executes
-Monotone == [][(st'.open /\ st.open /\ hist' # hist /\ hist'[Len(hist')].k \notin {"exec", "execfail", "open"})
+Monotone == [][(st'.open /\ st.open /\ hist' # hist /\ hist'[Len(hist')].k \notin {"exec", "dml", "execfail", "open"})
                   => st'.idx >= st.idx]_vars
 
 Bound == Len(hist) < Depth
